@@ -391,8 +391,6 @@ func (s *Sched) choose(ts []transition) int {
 			cost = 0
 		} else if base.g != nil && t.g == base.g && t.timer == nil {
 			cost = 0 // another ready case of the same select
-		} else if base.g != nil && base.g.req.kind == rqBlock && base.g.req.label == "harness-yield" {
-			cost = 0
 		}
 		if cost > 0 && r.delayBound >= 0 && s.delays+cost > r.delayBound {
 			continue
